@@ -28,6 +28,17 @@ CLAIMED["C06"] = dict(
   technique="inductive-step and bounded model checking by SMT-based symbolic execution of go/ssa (z3/cvc5), counterexamples replayed natively",
   ref="4-C06")
 
+CLAIMED["C02"] = dict(
+  text="Bounded symbolic verification (SMT over go/ssa). codecs.RewritePacket on every packet of the enumerated header/descriptor shapes with all non-structural bits symbolic: length, first octet, payload type, timestamp, SSRC and every byte outside the picture-id field unchanged (Skolem byte index), seqno as requested, marker only set on request, and - with pion's own RTP and VP8 parsers executed symbolically as the oracle - identical descriptor fields and payload with PictureID' = PictureID+delta mod 2^7 / 2^15; refused rewrites touched only octets 1-3. Rare shapes (7-bit ids crossing 127, CSRCs, header extensions) are exactly where sampling is blind.",
+  note="Bounds: CSRC count 0..1 (thorough 0..3), padding 0/1, header extension absent/0/1 words, 17 VP8 descriptor shapes, 0..2 (thorough 0..6) payload bytes after the descriptor, 4 (7) codec strings. Outside: longer payloads (the rewriter never looks past the descriptor), the frame-level consecutiveness of picture ids through packetmap + rtpDownTrack.Write (see DESIGN 4-C02: needs the rtpconn harness), session-level rewriting done by pion after track.Write. Trusted: go/ssa, gosmt, pion parsers as oracle, z3/cvc5.",
+  technique="bounded symbolic execution of go/ssa with SMT (z3/cvc5), differential against pion's parsers, counterexamples replayed natively",
+  ref="4-C02")
+CLAIMED["C12"] = dict(
+  text="Bounded symbolic verification (SMT over go/ssa): every implicit Go panic (index/slice bounds, nil dereference, failed type assertion, division by zero) in codecs.PacketFlags, RewritePacket, Keyframe, KeyframeDimensions and in the pion RTP/VP8/VP9 Unmarshal code they call is an assertion decided by the solver for EVERY byte string up to the bound under every codec name, and for the readLoop path (pion Unmarshal -> Keyframe -> PacketFlags).",
+  note="Bounds: buffers of 0..20/24/12/18 bytes (thorough 40/48/24/32) for flags/rewrite/keyframe/readpath, 7 codec strings. Outside: longer packets (AV1/H.264 aggregation loops grow with length), the signalling (handleClientMessage) and HTTP surfaces of this property (see not-encoded list in DESIGN 4-C12), sdp/sdpfrag/JSON/websocket decoding in libraries. Trusted: go/ssa, gosmt, z3/cvc5.",
+  technique="bounded symbolic execution of go/ssa with SMT-decided panic checks, counterexamples replayed natively with recover",
+  ref="4-C12")
+
 NOT_APPLICABLE = {
 }
 
